@@ -16,7 +16,7 @@ func init() {
 	Recorders["runner"] = recordRunner
 	// host function values project by name in recorded traces
 	h := &HostLog{}
-	for _, n := range []string{"rec", "id", "fail", "recs", "add2", "cat"} {
+	for _, n := range []string{"rec", "id", "fail", "failv", "recs", "add2", "cat"} {
 		f, _ := h.Func(n)
 		proj.FuncNames[reflect.ValueOf(f).Pointer()] = n
 	}
